@@ -211,11 +211,11 @@ def handleAll (c : Case) : Res := Id.run do
       let u := uArr[0]!
       let evs := decodeEvents sc
       let permCi := sc.int "perm_c"; let permRi := sc.int "perm_r"
-      if !isPermArr permCi n then return Res.propFalse s!"step {k} ({fact}): perm_c is not a permutation of 0..n-1" tg
+      if !isPermArr permCi n then return Res.propFalse s!"step {k} ({fact}): order: perm_c is not a permutation of 0..n-1" tg
       if fact != "D" then
-        if permCi ≠ sc.int "perm_c_in" then return Res.propFalse s!"step {k} ({fact}): the inherited perm_c was modified" tg
+        if permCi ≠ sc.int "perm_c_in" then return Res.propFalse s!"step {k} ({fact}): order: the inherited perm_c was modified" tg
         match held with
-        | some H => if sc.int "etree" ≠ H.sc.int "etree" then return Res.propFalse s!"step {k} ({fact}): the inherited etree was modified" tg
+        | some H => if sc.int "etree" ≠ H.sc.int "etree" then return Res.propFalse s!"step {k} ({fact}): order: the inherited etree was modified" tg
         | none => pure ()
       let permC := permCi.map Int.toNat
       let ipc := Slu.Drv.Lu.invPerm permC
@@ -227,11 +227,11 @@ def handleAll (c : Case) : Res := Id.run do
         if st0.info = 0 ∧ roundingFree c.isDouble n n P0.col st0 then
           return Res.propFalse s!"step {k} ({fact}): info = {info} but exact elimination finds every pivot nonzero (rounding-free case)" tg
         return Res.ok false (tags0 ++ ["info-singular"]) "tolerance"
-      let some fac := decodeFac sc | return Res.propFalse s!"step {k} ({fact}): factors contain non-finite values" tg
+      let some fac := decodeFac sc | return Res.propFalse s!"step {k} ({fact}): factors: factors contain non-finite values" tg
       match Struct.wfSC fac with
       | some msg => return Res.propFalse s!"step {k} ({fact}): structure: {msg}" tg
       | none => pure ()
-      if !isPermArr permRi n then return Res.propFalse s!"step {k} ({fact}): perm_r is not a permutation of 0..n-1" tg
+      if !isPermArr permRi n then return Res.propFalse s!"step {k} ({fact}): factors: perm_r is not a permutation of 0..n-1" tg
       let permR := permRi.map Int.toNat
       let I : Impl := { m := n, n := n, F := F, permC := permC, permR := permR, fac := fac, info := 0 }
       -- the model's view of this call (Corr b); the matrix handed to the model is the one whose exact
@@ -262,13 +262,13 @@ def handleAll (c : Case) : Res := Id.run do
       if certified then nExactSteps := nExactSteps + 1 else allExact := false
       -- Prop: C02 clause set on the implementation's outputs w.r.t. this step's matrix
       match propFactors sc I u certified with
-      | some msg => return Res.propFalse s!"step {k} ({fact}): {msg}" tg
+      | some msg => return Res.propFalse s!"step {k} ({fact}): factors: {msg}" tg
       | none => pure ()
       match propDiagPref sc evs with
-      | some msg => return Res.propFalse s!"step {k} ({fact}): {msg}" tg
+      | some msg => return Res.propFalse s!"step {k} ({fact}): factors: {msg}" tg
       | none => pure ()
       match propEvents n evs (fact == "R") permRin permRi with
-      | some msg => return Res.propFalse s!"step {k} ({fact}): {msg}" tg
+      | some msg => return Res.propFalse s!"step {k} ({fact}): factors: {msg}" tg
       | none => pure ()
       let H : Held := { step := k, sc := sc, I := I, equed := eq, R := Rv, C := Cv }
       match propScaleB sc n eq Rv Cv eps with
@@ -355,10 +355,13 @@ def handleAll (c : Case) : Res := Id.run do
 other than a structure clause is left to C06 -/
 def handle (c : Case) : Res :=
   let r := handleAll c
-  if c.p "only" "" == "struct" then
-    if r.status == "prop-false" ∧ (r.msg.splitOn "structure:").length > 1 then r
-    else if r.status == "prop-false" ∨ r.status == "corr-mismatch" then Res.ok true r.tags "struct-only"
-    else r
+  let only := c.p "only" ""
+  if only == "" then r else
+  -- `p only <a|b|…>`: another property runs these histories for some clauses only (C03: structure:, C02: factors:
+  -- and structure:, C10: order:); a verdict about any other clause is left to C06
+  let keys := (only.splitOn "|").map fun k => if k == "struct" then "structure:" else k
+  if r.status == "prop-false" ∧ keys.any (fun k => (r.msg.splitOn k).length > 1) then r
+  else if r.status == "prop-false" ∨ r.status == "corr-mismatch" then Res.ok true r.tags "other-clause"
   else r
 
 end Slu.Drv.History
